@@ -9,7 +9,13 @@ evaluation order (arguments before the call, short-circuit operators as branches
  * `manager.push` / `self.manager.push` / `manager.pop` / `self.manager.pop`  -> the primitives (and the bodies
    of `ThreadLocalManager.push/pop` are compared with the expected shape; anything else makes the primitive
    `unknown`)
- * a callee listed in RESOLVE for the enclosing function   -> `.scope <that function's skeleton>` (inlined)
+ * a callee listed in RESOLVE for the enclosing function, a method named in GLOBAL_METHODS (whatever the receiver),
+   `begin/end/commit` on a receiver whose type is known (TYPED_METHODS: `self` in config/*.py is a Configurator, `self`
+   in RequestContext, a local bound to `RequestContext(...)` directly or through a helper that returns one)
+   -> `.scope <that function's skeleton>` (inlined)
+ * a helper extracted from a listed function — a function of the same module or a method of the same class, up to
+   three levels deep — is translated and inlined when its skeleton touches the stack or enters a listed function
+   (otherwise it stays an opaque call and what its trial translation allocated is rolled back)
  * anything else -> `.call <site>`: may raise, assumed to leave the stack depth unchanged (user callables and
    framework functions that do not touch the manager; PUSH_POP_OWNERS below lists, from a scan of the whole
    package, every function that does, and Props/C13 decides that list against the functions modelled here)
@@ -27,7 +33,8 @@ the `yield` outside a `finally` (contextlib would still run it, the substitution
 Anything with an unexpected shape (unknown statement kind, break/continue, `manager.clear`, a context manager
 that is neither in WITH nor a local generator, an `__exit__` returning a value, …) is emitted as `.unknown`, which has
 no analysis verdict, so every obligation over that function fails.  `modelledOwners` lists every translated function;
-Props/C13 decides that every push/pop owner found by the whole-package scan is one of them.
+Props/C13 decides that every push/pop owner found by the whole-package scan is one of them.  `siteLocs` gives the
+source position of every call site: the harness identifies the site a hook runs under by position, not by name.
 """
 import ast, os
 
@@ -113,6 +120,24 @@ RESOLVE = {
     ('AppEnvironment.__exit__', "self['closer']"): 'prepare.closer',
 }
 
+# method names resolved whatever the receiver expression is (dynamic dispatch taken on trust, like RESOLVE): lets the
+# resolution survive the extraction of a helper (the call moves into another function) or a renamed local
+GLOBAL_METHODS = {
+    '_process_response_callbacks': 'CallbackMethodsMixin._process_response_callbacks',
+    '_process_finished_callbacks': 'CallbackMethodsMixin._process_finished_callbacks',
+    'invoke_exception_view': 'ViewMethodsMixin.invoke_exception_view',
+    'invoke_request': 'Router.invoke_request',
+    'finish_request': 'Router.finish_request',
+}
+# begin/end/commit are ambiguous by name: resolved by the receiver's type — `self` inside config/*.py is a
+# Configurator, `self` inside RequestContext is a RequestContext, a local bound to RequestContext(...) (directly or
+# through a helper that returns one) is a RequestContext
+TYPED_METHODS = {
+    ('Configurator', 'begin'): 'Configurator.begin', ('Configurator', 'end'): 'Configurator.end',
+    ('Configurator', 'commit'): 'ActionConfiguratorMixin.commit',
+    ('RequestContext', 'begin'): 'RequestContext.begin', ('RequestContext', 'end'): 'RequestContext.end',
+}
+
 # `with <callee>(…)`: ('class', C) = C(...) then C.__enter__/__exit__; ('ret', F, C) = F(...) returns a C;
 # ('gen', G) = @contextmanager generator G
 WITH = {
@@ -196,6 +221,13 @@ class Tr:
 
     def __init__(self):
         self.sites = []          # index = site id -> name
+        self.locs = []           # index = site id -> "file:line:col:endline:endcol" of the call node ("-" = none)
+        self.helpers = {}        # (file, qualname) -> lean name | None (looked at, stays an opaque call)
+        self.helper_defs = []    # translated helper functions, emitted before their first user
+        self.in_progress = set()
+        self.types = {}          # local variable -> 'RequestContext' for the function being translated
+        self.cls = None          # ast.ClassDef of the function being translated
+        self.depth = 0
         self.no_raise = []
         self.unknowns = []
         self.fn = None
@@ -204,19 +236,21 @@ class Tr:
         self.file = None
         self.gen_plain = {}      # lean name of a generator CM -> it has code after the yield outside finally
         self.auto = {}           # (file, name) -> lean name of a generator CM discovered at a `with`
-        self.auto_defs = []      # (lean, qual, True, term) to be emitted before the function that uses them
 
-    def gen_cm(self, fn, qual, lean):
+    def gen_cm(self, fn, qual, lean, cls=None):
         """translate an @contextmanager generator as a Lean function of the with-body"""
-        saved = self.fn
+        saved = (self.fn, self.types, self.cls)
         self.fn = qual
+        self.types = self.infer_types(fn, {})
+        if cls is not None:
+            self.cls = cls
         ok, why, plain = gen_cm_info(fn)
         if not ok:
             term = self.unknown('generator context manager: ' + why)
         else:
             term = self.block(_body(fn), yield_body='body')
         self.gen_plain[lean] = plain
-        self.fn = saved
+        self.fn, self.types, self.cls = saved
         return (lean, qual, True, term)
 
     def local_gen_cm(self, nm):
@@ -230,11 +264,13 @@ class Tr:
             if isinstance(n, ast.FunctionDef) and n.name == nm and _is_contextmanager(n):
                 lean = 'gen_' + ''.join(c if c.isalnum() else '_' for c in (self.file[:-3] + '_' + nm))
                 self.auto[key] = lean
-                self.auto_defs.append(self.gen_cm(n, nm, lean))
+                self.helper_defs.append(self.gen_cm(n, nm, lean))
                 return lean
         return None
 
-    def site(self, kind):
+    def site(self, kind, node=None):
+        self.locs.append('%s:%d:%d:%d:%d' % (self.file, node.lineno, node.col_offset, node.end_lineno, node.end_col_offset)
+                         if node is not None and self.file else '-')
         key = (self.fn, kind)
         self.counts[key] = self.counts.get(key, 0) + 1
         self.sites.append('%s|%s|%d' % (self.fn, kind, self.counts[key]))
@@ -243,6 +279,128 @@ class Tr:
     def unknown(self, why):
         self.unknowns.append('%s: %s' % (self.fn, why))
         return '.unknown'
+
+    # ---- calls ----------------------------------------------------------------------------------------------
+    def receiver_type(self, f):
+        """'Configurator' | 'RequestContext' | None for the receiver of the attribute call `f`"""
+        if not isinstance(f, ast.Attribute) or not isinstance(f.value, ast.Name):
+            return None
+        v = f.value.id
+        if v == 'self':
+            if self.cls is not None and self.cls.name == 'RequestContext':
+                return 'RequestContext'
+            if self.file and self.file.startswith('config/'):
+                return 'Configurator'
+            return None
+        return self.types.get(v)
+
+    def call_term(self, e, nm):
+        f = e.func
+        if nm in PUSH:
+            return 'managerPush'
+        if nm in POP:
+            return 'managerPop'
+        if nm in BAD:
+            return self.unknown('call of ' + nm)
+        if (self.fn, nm) in RESOLVE:
+            return '(.scope %s)' % LEAN[RESOLVE[(self.fn, nm)]]
+        if isinstance(f, ast.Attribute):
+            ty = self.receiver_type(f)
+            if (ty, f.attr) in TYPED_METHODS:
+                return '(.scope %s)' % LEAN[TYPED_METHODS[(ty, f.attr)]]
+            if f.attr in GLOBAL_METHODS:
+                return '(.scope %s)' % LEAN[GLOBAL_METHODS[f.attr]]
+        h = self.helper(f)
+        if h is not None:
+            return '(.scope %s)' % h
+        s = self.site(nm, e)
+        if nm in NO_RAISE:
+            self.no_raise.append(s)
+        return '(.call %d)' % s
+
+    def helper_node(self, f):
+        """(qualname, FunctionDef, ClassDef|None) of a same-module function / same-class method called as `f`"""
+        if isinstance(f, ast.Name) and self.tree is not None:
+            for n in self.tree.body:
+                if isinstance(n, ast.FunctionDef) and n.name == f.id and not _is_contextmanager(n):
+                    return f.id, n, None
+        if (isinstance(f, ast.Attribute) and isinstance(f.value, ast.Name) and self.cls is not None
+                and f.value.id in ('self', 'cls', self.cls.name)):
+            for n in self.cls.body:
+                if isinstance(n, ast.FunctionDef) and n.name == f.attr:
+                    return self.cls.name + '.' + f.attr, n, self.cls
+        return None
+
+    def helper(self, f):
+        """lean name when the callee is a local helper worth inlining: a function of the same module / method of the
+        same class whose skeleton (two levels deep) touches the stack or enters a listed function; helpers that do
+        neither stay opaque calls (and what they allocated is rolled back)"""
+        hn = self.helper_node(f)
+        if hn is None:
+            return None
+        qual, node, cls = hn
+        key = (self.file, qual)
+        if qual in LEAN:
+            return LEAN[qual]
+        if key in self.helpers:
+            return self.helpers[key]
+        if key in self.in_progress or self.depth >= 3:
+            return None
+        if any(isinstance(n, (ast.Yield, ast.YieldFrom)) for n in own_nodes(node)):
+            return None
+        snap = (len(self.sites), dict(self.counts), list(self.no_raise), list(self.unknowns), len(self.helper_defs),
+                dict(self.helpers), 0, dict(self.auto), dict(self.gen_plain))
+        saved = (self.fn, self.types, self.cls)
+        self.in_progress.add(key)
+        self.depth += 1
+        self.fn, self.cls = qual, cls
+        self.types = self.infer_types(node, {})
+        term = self.block(_body(node))
+        self.fn, self.types, self.cls = saved
+        self.depth -= 1
+        self.in_progress.discard(key)
+        interesting = any(x in term for x in ('managerPush', 'managerPop', '(.scope ', 'withCM', '(hide_attrs ', '(route_prefix_context ', '(gen_'))
+        if not interesting:
+            del self.sites[snap[0]:]
+            del self.locs[snap[0]:]
+            self.counts, self.no_raise, self.unknowns = snap[1], snap[2], snap[3]
+            del self.helper_defs[snap[4]:]
+            self.helpers = snap[5]
+            self.auto, self.gen_plain = snap[7], snap[8]
+            self.helpers[key] = None
+            return None
+        lean = 'h_' + ''.join(c if c.isalnum() else '_' for c in (self.file[:-3] + '_' + qual))
+        self.helpers[key] = lean
+        self.helper_defs.append((lean, qual, False, term))
+        return lean
+
+    def ret_type(self, f):
+        """'RequestContext' when the helper called as `f` returns one on every path"""
+        hn = self.helper_node(f)
+        if hn is None:
+            return None
+        _q, node, _c = hn
+        ty = self.infer_types(node, {}, follow=False)
+        rets = [n for n in own_nodes(node) if isinstance(n, ast.Return)]
+        if not rets:
+            return None
+        for r in rets:
+            v = r.value
+            ok = (isinstance(v, ast.Name) and ty.get(v.id) == 'RequestContext') or \
+                 (isinstance(v, ast.Call) and name(v.func) == 'RequestContext')
+            if not ok:
+                return None
+        return 'RequestContext'
+
+    def infer_types(self, fn, inherited, follow=True):
+        types = dict(inherited)
+        for n in own_nodes(fn):
+            if isinstance(n, ast.Assign) and len(n.targets) == 1 and isinstance(n.targets[0], ast.Name) and isinstance(n.value, ast.Call):
+                if name(n.value.func) == 'RequestContext':
+                    types[n.targets[0].id] = 'RequestContext'
+                elif follow and self.ret_type(n.value.func) == 'RequestContext':
+                    types[n.targets[0].id] = 'RequestContext'
+        return types
 
     # ---- expressions: list of Stmt terms in evaluation order --------------------------------------------
     def expr(self, e):
@@ -260,19 +418,7 @@ class Tr:
             for k in e.keywords:
                 out += self.expr(k.value)
             nm = name(f)
-            if nm in PUSH:
-                out.append('managerPush')
-            elif nm in POP:
-                out.append('managerPop')
-            elif nm in BAD:
-                out.append(self.unknown('call of ' + nm))
-            elif (self.fn, nm) in RESOLVE:
-                out.append('(.scope %s)' % LEAN[RESOLVE[(self.fn, nm)]])
-            else:
-                s = self.site(nm)
-                if nm in NO_RAISE:
-                    self.no_raise.append(s)
-                out.append('(.call %d)' % s)
+            out.append(self.call_term(e, nm))
             return out
         if isinstance(e, ast.BoolOp):
             out = self.expr(e.values[0])
@@ -416,7 +562,7 @@ class Tr:
                     return self.unknown('return inside `with %s` whose generator has code after the yield outside finally' % nm)
                 return self.seq(pre + ['(%s %s)' % (lean, body)])
             if w[0] == 'class':
-                pre.append('(.call %d)' % self.site(nm))
+                pre.append('(.call %d)' % self.site(nm, it))
                 return self.seq(pre + ['(withCM %s_enter %s %s_exit)' % (w[1], body, w[1])])
             if w[0] == 'ret':
                 pre.append('(.scope %s)' % LEAN[w[1]])
@@ -568,20 +714,30 @@ def generate(src_root):
         fn = fnnodes[qual]
         tr.fn = qual
         tr.tree, tr.file = trees[f], f
+        parts = qual.split('.')
+        outer = find(trees[f], '.'.join(parts[:-1])) if len(parts) > 1 else None
+        tr.cls = outer if isinstance(outer, ast.ClassDef) else None
+        tr.types = {}
+        if fn is not None:
+            inherited = tr.infer_types(outer, {}) if isinstance(outer, ast.FunctionDef) else {}
+            tr.types = tr.infer_types(fn, inherited)
         if fn is None:
             tr.gen_plain[lean] = True
             defs.append((lean, qual, qual in GEN_CMS, tr.unknown('function not found')))
             continue
         body = _body(fn)
         if qual in GEN_CMS:
-            defs.append(tr.gen_cm(fn, qual, lean))
+            g = tr.gen_cm(fn, qual, lean, tr.cls)
+            defs.extend(tr.helper_defs)
+            tr.helper_defs = []
+            defs.append(g)
             continue
         if qual.endswith('.__exit__') and not _exit_ok(fn):
             defs.append((lean, qual, False, tr.unknown('__exit__ returns a value')))
             continue
         term = tr.block(body)
-        defs.extend(tr.auto_defs)
-        tr.auto_defs = []
+        defs.extend(tr.helper_defs)
+        tr.helper_defs = []
         if qual == 'Router.request_context':
             last = body[-1] if body else None
             if not (isinstance(last, ast.Return) and isinstance(last.value, ast.Call) and name(last.value.func) == 'RequestContext'):
@@ -633,6 +789,11 @@ def generate(src_root):
     L.append(',\n'.join('  "%s"' % s.replace('\\', '\\\\').replace('"', '\\"') for s in tr.sites))
     L.append(']')
     L.append('')
+    L.append('/-- site id ↦ "file:line:col:endline:endcol" of the call expression ("-" for branches, loops, synthetic sites) -/')
+    L.append('def siteLocs : List String := [')
+    L.append(',\n'.join('  "%s"' % s for s in tr.locs))
+    L.append(']')
+    L.append('')
     L.append('/-- sites of total constructors (%s) assumed not to raise -/' % ', '.join(sorted(NO_RAISE)))
     L.append('def noRaise : List Nat := [%s]' % ', '.join(map(str, tr.no_raise)))
     L.append('')
@@ -645,7 +806,8 @@ def generate(src_root):
     L.append(',\n'.join('  "%s"' % o for o in owners))
     L.append(']')
     L.append('')
-    modelled = ['%s:%s' % (f, q) for f, q, _l in FUNCS] + ['%s:%s' % k for k in tr.auto]
+    modelled = (['%s:%s' % (f, q) for f, q, _l in FUNCS] + ['%s:%s' % k for k in tr.auto]
+                + ['%s:%s' % k for k, v in tr.helpers.items() if v])
     L.append('/-- the functions whose skeletons are translated above: the listed ones and every module-level')
     L.append('`@contextmanager` helper a listed function enters with `with` (decided balanced around any body below) -/')
     L.append('def modelledOwners : List String := [')
